@@ -299,3 +299,11 @@ func C13TransformCache() {
 		zz.Cover("failed")
 	}
 }
+
+// ZZValidate / ZZFuncs / ZZRT: exported for harnesses in other packages (the overlay makes
+// them part of package transform without touching /repo).
+func ZZValidate(decls map[string]*Decl) *Decl { return zzValidate(decls) }
+
+var ZZFuncs = zzFuncs
+
+func ZZRT(s string) *resultType { return zzRT(s) }
